@@ -125,6 +125,72 @@ def run(ctx, out):
                         canon2 = pos + b"".join(seq[:j])
                         exp = f"ok {V.show(layout, sty, v2)} rem={C.hexs(rest)} reenc={C.hexs(frame(s, canon2))}"
                     add(s, body, exp, "foreign")
+    # --- the same faults one to three nesting levels down: inside a struct held in a tagged (optional) field of the enclosing type.
+    # The error of the nested decoder must surface; the enclosing field must not silently read as absent.
+    def tagged_suffix(t):
+        fs = t["fields"]
+        ft = next((i for i, f in enumerate(fs) if f["tag"] is not None), None)
+        return ft is not None and all(f["tag"] is not None for f in fs[ft:])
+
+    def inner_struct(f):
+        ty = f["ty"]["t"] if f["ty"]["k"] == "opt" else f["ty"]
+        return layout["by_name"][ty["name"]] if ty["k"] == "struct" else None
+
+    def sites(t, v, depth):
+        """paths [(struct, field, value of that struct)] to nested structs reachable through tagged fields that are present"""
+        for f in t["fields"]:
+            u = inner_struct(f)
+            if u is None or f["tag"] is None or v[f["name"]] is None:
+                continue
+            yield [(t, f, v)], u, v[f["name"]]
+            if depth > 1:
+                for path, w, wv in sites(u, v[f["name"]], depth - 1):
+                    yield [(t, f, v)] + path, w, wv
+
+    def wrap(path, inner_body):
+        b = inner_body
+        for t, f, v in reversed(path):
+            try:
+                fb = R.tag_bytes(f["tag"]) + R.length_prefix(f["length"], b) + b
+                b = b"".join(fb if g is f else R.field_bytes(layout, g, g["ty"], v[g["name"]]) for g in t["fields"])
+            except R.NotRepresentable:
+                return None
+        return b
+
+    n_nested = 0
+    for s in structs:
+        g = V.Gen(layout, rng)
+        for _ in range(per // 2):
+            v = g.struct(s, rng.choice([0.0, 0.1, 0.3]))
+            if V.fits(layout, s, v) is None:
+                continue
+            for path, u, uv in sites(s, v, 3):
+                if not tagged_suffix(u):
+                    continue
+                fs = u["fields"]
+                ft = next(i for i, f in enumerate(fs) if f["tag"] is not None)
+                upos = b"".join(R.field_bytes(layout, f, f["ty"], uv[f["name"]]) for f in fs[:ft])
+                groups = [(f, R.field_bytes(layout, f, f["ty"], uv[f["name"]])) for f in fs[ft:]]
+                groups = [(f, gb) for f, gb in groups if gb]
+                n = len(groups)
+                muts = []
+                for i, (f, gb) in enumerate(groups):
+                    for j in range(n + 1):
+                        if not (f["ty"]["k"] == "vec" and j in (i, i + 1)):
+                            seq = [x[1] for x in groups]
+                            seq.insert(j, gb)
+                            muts.append((upos + b"".join(seq), f"err duplicateTag:{f['tag']}", "nested-duplicate"))
+                mand = [i for i, (f, _) in enumerate(groups) if not is_optional(f["ty"])]
+                for r in range(1, len(mand) + 1):
+                    for sub in itertools.combinations(mand, r):
+                        seq = [x[1] for i, x in enumerate(groups) if i not in sub]
+                        miss = sorted(groups[i][0]["tag"] for i in sub)
+                        muts.append((upos + b"".join(seq), "err missing:" + ",".join(map(str, miss)), "nested-missing"))
+                for mb, exp, kd in (muts if len(muts) <= 12 else rng.sample(muts, 12)):
+                    body = wrap(path, mb)
+                    if body is not None:
+                        add(s, body, exp, kd)
+                        n_nested += 1
     impl, model = ctx.pair(ops)
     out.compare("dec(permuted/duplicated/pruned/spliced)", ops, impl, model)
     out.evaluations = len(ops)
@@ -136,8 +202,10 @@ def run(ctx, out):
             out.oracle_failures.append({"op": o, "observed": "…" + r[max(0, i - 80):i + 160], "expected": "…" + w[max(0, i - 80):i + 160], "key": o[:160],
                                         "what": {"duplicate": "a tag occurring twice is not rejected as a duplicate naming that tag",
                                                  "missing": "absent mandatory tagged fields are not all named (sorted) in the error",
+                                                 "nested-duplicate": "a tag occurring twice inside a nested container is not rejected as a duplicate naming that tag",
+                                                 "nested-missing": "mandatory tagged fields absent from a nested container are not reported (sorted) in the error",
                                                  "foreign": "an unknown tag disturbs fields already decoded / is not handed back with the bytes following it"}.get(kd, "tagged fields in a different order do not decode to the same value")})
     out.rule = (f"canonical values of the {len(structs)} types with tagged fields ({per} each): all permutations of the encoded tagged-field groups up to {max_perm} present groups (24 sampled above / after the 6th value), "
-                "a duplicate of every group at every non-adjacent position, every non-empty subset of mandatory groups removed, a foreign tag (00 and a random unknown number, each bare and followed by random bytes) spliced in before every group. "
+                "a duplicate of every group at every non-adjacent position, every non-empty subset of mandatory groups removed, a foreign tag (00 and a random unknown number, each bare and followed by random bytes) spliced in before every group; duplicates and removed mandatory groups also inside containers one to three nesting levels down (reached through present tagged fields). "
                 "Expected outcomes computed from the value alone; implementation = model = expectation. non-trivial = distinct inputs")
     out.samples = [ops[0][:200], {"op": ops[len(ops)//2][:160], "impl": impl[len(ops)//2][:200], "kind": kinds[len(ops)//2]}]
